@@ -14,6 +14,7 @@
  * limitations under the License.
  */
 
+#include <unifex/detail/verif_hooks.hpp>
 #include <unifex/detail/atomic_intrusive_list.hpp>
 
 namespace unifex {
@@ -139,6 +140,7 @@ void atomic_intrusive_list_impl<Latch>::push_back_impl(node* item) noexcept {
   UNIFEX_ASSERT(item != nullptr);
   UNIFEX_ASSERT(item->self.load(std::memory_order_relaxed) == nullptr);
 
+  UNIFEX_VERIF_POINT(331);
   item->rest.store(to_value(&sentinel_), std::memory_order_relaxed);
 
   while (true) {
@@ -160,6 +162,7 @@ void atomic_intrusive_list_impl<Latch>::push_back_impl(node* item) noexcept {
 
 template <bool Latch>
 node* atomic_intrusive_list_impl<Latch>::pop_front_impl() noexcept {
+  UNIFEX_VERIF_POINT(332);
   uintptr_t old_head = lock(head_);
   node* first = to_node(old_head);
 
@@ -185,6 +188,7 @@ bool atomic_intrusive_list_impl<Latch>::try_remove_impl(node* item) noexcept {
   UNIFEX_ASSERT(item != nullptr);
 
   while (true) {
+    UNIFEX_VERIF_POINT(333);
     link* head_ptr = item->self.load(std::memory_order_acquire);
     if (!head_ptr) {
       return false;
@@ -269,6 +273,7 @@ bool atomic_intrusive_list_impl<Latch>::push_front_unless_latched_impl(
     UNIFEX_ASSERT(item != nullptr);
     UNIFEX_ASSERT(item->self.load(std::memory_order_relaxed) == nullptr);
 
+    UNIFEX_VERIF_POINT(334);
     uintptr_t old_head = lock(head_);
     node* old_first = to_node(old_head);
 
@@ -298,6 +303,7 @@ void atomic_intrusive_list_impl<Latch>::latch_and_drain_impl(
     UNIFEX_ASSERT(&target != this);
     UNIFEX_ASSERT(target.empty_impl());
 
+    UNIFEX_VERIF_POINT(335);
     uintptr_t old_head = lock(head_);
     node* first = to_node(old_head);
 
